@@ -1,5 +1,5 @@
 CONSTANTS
-  Sigma = {"n", "/", "%", "4", "1", " ", ":", ".", "U", "#", "?"}
+  Sigma = {"n", "/", "%", "4", "1", " ", ":", ".", "U", "#", "?", "+"}
   L = 4
   DEEP = 99
   EMIT = TRUE
